@@ -1204,6 +1204,33 @@ def f(ctx):
 
 
 # ---------------------------------------------------------------------------
+# C08.g  (added while implementing C08.b: the finally-callback must exist on every path that reaches it)
+
+
+@R.clause("C08.g", "the cancellation callback is only invoked when there is one: the call is dominated by `_accepted`, or every ServerObservation carries a callable from construction on")
+def g(ctx):
+    prog = ctx.prog
+    P = _obs_parts(ctx)
+    fi, cfg = P.fi, P.cfg
+    ci = prog.cls("protocol.ServerObservation")
+    init = ci.methods.get("__init__")
+    ctx.need(init is not None, "ServerObservation.__init__ missing")
+    icfg = cfg_of(init)
+    st = [n for k, n in stores_to(init.node, "self._cancellation_callback", nested=False) if k == "assign"]
+    default = "_cancellation_callback" in ci.methods or "_cancellation_callback" in ci.attrs or (bool(st) and icfg.must_pass(icfg.entry, {j for n in st for j in _rn(icfg, n)}))
+    calls = [c for c, _ in find("%s._cancellation_callback()" % P.so, fi.node)]
+    ctx.floor("cancellation callback call sites", len(calls), 1)
+    for c in calls:
+        guarded = all(guarded_by(cfg, j, "%s._accepted" % P.so, True) or guarded_by(cfg, j, 'hasattr(%s, "_cancellation_callback")' % P.so, True) for j in _rn(cfg, c))
+        ctx.ob("a declined observation (add_observation did not call accept) has no callback to invoke: the call must be conditional on acceptance or a default must exist; "
+               "otherwise the AttributeError raised in the finally clause replaces the handler's own outcome", default or guarded, fi, c,
+               detail=None if (default or guarded) else "ServerObservation defines _cancellation_callback only in accept(); the call is unconditional")
+    acc = [n for k, n in stores_to(init.node, "self._accepted", nested=False) if k == "assign"]
+    ctx.ob("a ServerObservation starts as not accepted", len(acc) == 1 and isinstance(acc[0], ast.Assign) and isinstance(acc[0].value, ast.Constant) and acc[0].value.value is False, init, acc[0] if acc else init.node,
+           construct=None if acc else "ServerObservation.__init__")
+
+
+# ---------------------------------------------------------------------------
 # seeded faults (sensitivity self-test)
 F_IF = "aiocoap/interfaces.py"
 F_RES = "aiocoap/resource.py"
@@ -1258,3 +1285,4 @@ R.seed("C08.f", F_IF, "                servobs._trigger = asyncio.get_running_lo
        "\n                if response is None:\n                    response = await self.render(pipe.request)\n                servobs._trigger = asyncio.get_running_loop().create_future()\n", "trigger during rendering is lost")
 R.seed("C08.f", F_IF, "                if response is None:\n                    response = await self.render(pipe.request)\n", "                response = await self.render(pipe.request)\n", "triggered response always replaced by a rendering")
 R.seed("C08.f", F_IF, "                await servobs._trigger\n", "                await asyncio.sleep(0)\n", "loop does not wait for a trigger")
+R.seed("C08.g", F_PROTO, "        self._accepted = False\n", "        self._accepted = True\n", "declined observations are kept open (masked while C08.g is refuted on the analysed tree)")
